@@ -62,7 +62,7 @@ pub fn profile(name: &str) -> Profile {
     };
     match name {
         "c01" => Profile { name: "c01", retained: true, ..base },
-        "c03" => Profile { name: "c03", adversarial: true, stale_events: true, shared: true, persistent: true, takeover: true, wills: true, retained: true, v5: true, steps: (10, 120), ..base },
+        "c03" => Profile { name: "c03", adversarial: true, stale_events: true, shared: true, persistent: true, takeover: true, wills: true, retained: true, v5: true, steps: (20, 200), ..base },
         "c06" => Profile { name: "c06", ..base },
         "c08" => Profile { name: "c08", persistent: true, takeover: true, clients: (2, 4), ..base },
         "c09" => Profile { name: "c09", clients: (2, 3), ..base },
@@ -566,6 +566,71 @@ fn one_case(o: &Opts, w: &mut dyn Write, st: &mut Stats, p: &Profile, case: u64,
     let _ = fw;
 }
 
+/// C03/C14: every sequence of `len` symbols over a fixed alphabet of router-level stimuli
+/// (including stale, foreign and duplicated signals) after a fixed prelude; each op runs under
+/// catch_unwind in the harness. Exhaustive small scope = validation of the model against the code
+/// and search for failing inputs, not a proof.
+fn exhaustive_c03(o: &Opts, w: &mut dyn Write, st: &mut Stats, len: usize) {
+    let alphabet: Vec<Vec<String>> = vec![
+        vec!["consume".into()],
+        vec!["drain 0".into()],
+        vec![format!("connect 2 {} 0 0 0 -", hex(b"a"))],                 // takeover of client a (persistent)
+        vec![format!("connect 3 {} 1 0 0 {} {} 1 1", hex(b"c"), hex(b"w/t"), hex(b"will"))],
+        vec![format!("push 0 sub 5 - 2 {} 1 {} 2", hex(b"t/#"), hex(b"$share/g/t/#")), "ev 0 data".into()],
+        vec![format!("push 1 pub 1 7 1 0 {} {} - - 0", hex(b"t/x"), hex(b"p")), "ev 1 data".into()],
+        vec!["push 0 puback 1".into(), "ev 0 data".into()],               // ack (solicited or not)
+        vec!["push 0 disc".into(), "ev 0 data".into()],
+        vec![format!("push 1 unsub 9 2 {} {}", hex(b"t/#"), hex(b"nope")), "ev 1 data".into()],
+        vec!["ev 0 ready".into()],
+        vec!["ev 0 disc".into()],
+        vec!["ev 5 data".into()],                                           // never-registered id
+        vec![format!("ev 1 will {}", hex(b"c"))],
+        vec![format!("ev 0 shadow {}", hex(b"t/#"))],
+    ];
+    let n = alphabet.len();
+    let total = n.pow(len as u32);
+    for code in 0..total {
+        if (code as u64) % o.shards != o.shard {
+            continue;
+        }
+        let mut world = World::new();
+        writeln!(w, "case c03x-{len}-{code}").unwrap();
+        let mut ops: Vec<String> = vec![
+            "new 3 1024 2 2 rr".into(),
+            format!("connect 0 {} 0 0 0 -", hex(b"a")),
+            format!("connect 1 {} 1 0 2 -", hex(b"b")),
+            "consume".into(),
+            "consume".into(),
+            "drain 0".into(),
+            "drain 1".into(),
+            format!("push 0 sub 1 - 1 {} 1", hex(b"t/+")),
+            "ev 0 data".into(),
+            "consume".into(),
+        ];
+        let mut c = code;
+        for _ in 0..len {
+            ops.extend(alphabet[c % n].iter().cloned());
+            c /= n;
+        }
+        ops.push("consume".into());
+        ops.push("drain 0".into());
+        ops.push("drain 1".into());
+        let mut panicked = false;
+        for op in ops {
+            let out = world.exec(&op);
+            writeln!(w, "{op} => {out}").unwrap();
+            if out.starts_with("PANIC") {
+                st.impl_panics += 1;
+                panicked = true;
+                break;
+            }
+        }
+        st.eval();
+        st.tag(if panicked { "exhaustive-panic" } else { "exhaustive-ok" });
+        st.nontrivial(&("c03x", len, code));
+    }
+}
+
 pub fn generate(o: &Opts, w: &mut dyn Write) {
     let pname = o.extra.iter().position(|x| x == "--profile").map(|i| o.extra[i + 1].clone()).unwrap_or("c01".into());
     let p = profile(&pname);
@@ -587,6 +652,9 @@ pub fn generate(o: &Opts, w: &mut dyn Write) {
             }
         }
         w.write_all(&buf).unwrap();
+    }
+    if p.name == "c03" {
+        exhaustive_c03(o, w, &mut st, if o.thorough() { 4 } else { 3 });
     }
     if let Some(path) = &o.stats {
         st.write(path);
